@@ -340,6 +340,25 @@ func check(c Case) (vk.Outcome, error) {
 		if cap(got) > len(got)+c.A {
 			return out, viol(c, "cap %d > len %d + n %d", cap(got), len(got), c.A)
 		}
+		// the capacity bound for element sizes and lengths that fall between allocator size classes
+		for L := 0; L <= 70; L += 1 + c.B%3 {
+			for nn := 0; nn <= 3; nn++ {
+				bs := make([]byte, L, L+9)
+				is := make([]int, L, L+9)
+				for i := range bs {
+					bs[i], is[i] = byte(i), i
+				}
+				gb, gi := xslices.Shrink(bs, nn), xslices.Shrink(is, nn)
+				if cap(gb) > L+nn || cap(gi) > L+nn || len(gb) != L || len(gi) != L {
+					return out, viol(c, "Shrink(len %d cap %d, n=%d): []byte got len %d cap %d, []int got len %d cap %d; want cap <= %d", L, L+9, nn, len(gb), cap(gb), len(gi), cap(gi), L+nn)
+				}
+				for i := 0; i < L; i++ {
+					if gb[i] != byte(i) || gi[i] != i {
+						return out, viol(c, "Shrink changed the contents at %d", i)
+					}
+				}
+			}
+		}
 		g2 := xslices.Grow(in, c.B)
 		if cap(g2)-len(g2) < c.B || !reflect.DeepEqual(append([]el{}, g2...), append([]el{}, in...)) {
 			return out, viol(c, "Grow(%d): cap %d len %d", c.B, cap(g2), len(g2))
@@ -781,8 +800,13 @@ func checkWithStack(c Case) error {
 			return deep(n - 1)
 		}
 		w = deep(150)
-		if c.A%6 != 3 && c.A%6 != 4 && strings.Count(w.Error(), "checkWithStack") < 100 {
-			return viol(c, "a 150-frame deep WithStack renders only %d of its frames", strings.Count(w.Error(), "checkWithStack"))
+		if c.A%6 != 3 && c.A%6 != 4 {
+			// the rendered stack is the real one: going 140 calls deeper adds exactly 140 frames
+			frames := func(e error) int { return strings.Count(e.Error(), "(...)\n") }
+			shallow, deeper, deepest := frames(deep(10)), frames(w), frames(deep(215))
+			if deeper-shallow != 140 || deepest-deeper != 65 {
+				return viol(c, "WithStack at recursion depth 10 / 150 / 215 renders %d / %d / %d frames (differences must be 140 and 65)", shallow, deeper, deepest)
+			}
 		}
 	}
 	if w == nil {
